@@ -50,8 +50,9 @@ def effective (apiEndpoint websiteEndpoint : String) (r : Req) : Mux × String :
   else if host.endsWith apiSuffix then
     let bucket := (host.dropEnd apiSuffix.length).toString
     if bucket != "" then
-      let p := "/" ++ bucket ++ r.path
-      (.api, if p.endsWith "/" then (p.dropEnd 1).toString else p)
+      -- "/" (or "") addresses the bucket itself; any other path is an object key kept verbatim
+      -- ("folder/" and "folder" are different keys). The traces carry no RawPath.
+      (.api, if r.path == "" || r.path == "/" then "/" ++ bucket else "/" ++ bucket ++ r.path)
     else (.api, r.path)
   else if host.endsWith webSuffix && (host.dropEnd webSuffix.length).toString != "" then
     (.website, "/" ++ (host.dropEnd webSuffix.length).toString ++ r.path)
